@@ -440,3 +440,47 @@ def effective_tests(fn: ast.AST):
                             t = prev.value
                         out.append((st, expand_locals(t, amap)))
     return out
+
+
+def resolve_in_function(repo, m, fn, e):
+    """repo.resolve_expr that also sees the imports made inside the function (``from . import logging as _l``, ``import copy``)."""
+    r = repo.resolve_expr(m, e) if isinstance(e, (ast.Name, ast.Attribute)) else None
+    if r is not None:
+        return r
+    local = {}
+    for n in ast.walk(fn):
+        if isinstance(n, ast.Import):
+            for al in n.names:
+                local[al.asname or al.name.split(".")[0]] = ("module-or-ext", al.name if al.asname else al.name.split(".")[0])
+        elif isinstance(n, ast.ImportFrom):
+            base = m.name.split(".")
+            is_pkg = m.path.endswith("__init__.py")
+            if n.level:
+                up = n.level - (1 if is_pkg else 0)
+                base = base[: len(base) - up] if up else base
+                target = ".".join(base + ([n.module] if n.module else []))
+            else:
+                target = n.module or ""
+            for al in n.names:
+                local[al.asname or al.name] = ("from", target, al.name)
+    def lookup(name):
+        v = local.get(name)
+        if v is None:
+            return None
+        if v[0] == "module-or-ext":
+            return ("module", v[1]) if v[1] in repo.modules else ("external", v[1])
+        _, target, attr = v
+        if f"{target}.{attr}" in repo.modules:
+            return ("module", f"{target}.{attr}")
+        if target in repo.modules:
+            return repo.resolve_name(repo.modules[target], attr)
+        return ("external", f"{target}.{attr}")
+    if isinstance(e, ast.Name):
+        return lookup(e.id)
+    if isinstance(e, ast.Attribute) and isinstance(e.value, ast.Name):
+        r0 = lookup(e.value.id)
+        if r0 and r0[0] == "module":
+            return repo.resolve_name(repo.modules[r0[1]], e.attr)
+        if r0 and r0[0] == "external":
+            return ("external", f"{r0[1]}.{e.attr}")
+    return None
